@@ -154,13 +154,14 @@ EXP = ["ExpFixedRFA", "ExpAdaptiveRFA"]
 
 
 @st.composite
-def rfa_params(draw, name, n, exp_lo=0.02, smooth_default=False, default_prob=5):
+def rfa_params(draw, name, n, exp_lo=0.02, smooth_default=False, default_prob=5, alpha_hi=1.0):
     """Keyword arguments for strategy `name` within the documented ranges."""
     kw = {}
     if name in WINDOW_STRATEGIES:
         mode = draw(st.sampled_from(["default", "alpha", "a", "a"]))
         if mode == "alpha":
-            kw["alpha"] = draw(st.one_of(st.sampled_from([1.0, 0.5, 0.25, 0.75]), fl(0.01, 1.0)))
+            kw["alpha"] = draw(st.one_of(st.sampled_from([1.0, 0.5, 0.25, 0.75] + ([1.5, 2.0] if alpha_hi > 1 else [])),
+                                         fl(0.01, alpha_hi)))
         elif mode == "a":
             kw["a"] = draw(st.integers(0, n))
         if name in EXP:
